@@ -55,7 +55,7 @@ let is_op s = (s = [n_of_int 59]) || (s = [n_of_int 38; n_of_int 38]) || (s = [n
 
 let cls_str = function
   | FRange -> "range" | FArith -> "arith" | FSubst -> "subst" | FNlDollar -> "nl-dollar"
-  | FSelfRef -> "selfref" | FBraceOpen -> "brace-open"
+  | FSelfRef -> "selfref" | FBraceOpen -> "brace-open" | FHereString -> "herestring"
 
 let () =
   iter_lines (fun l ->
